@@ -23,8 +23,8 @@ Print Assumptions error_dispatch_unambiguous_names.
    and the same attribute values (for the default error type: the same name, id,
    message and flags).  Hypotheses: distinct names in the table; the value's
    GoaErrorName is the declared name and its Go type is the declared type; the
-   response mapping is well formed and is not Body("attribute"); header-carried values
-   are wire safe. *)
+   response mapping is well formed (Body("attribute") included: the attribute travels as
+   the body, the others in goa-attribute-* headers); header-carried values are wire safe. *)
 Theorem declared_error_roundtrip_partial hw te tbl d e vf :
   NoDup (map ename tbl) -> In d tbl ->
   as_namer te e = Some (ename d) ->
@@ -59,23 +59,7 @@ Proof.
 Qed.
 Print Assumptions roundtrip_refuted_type_shared_across_methods.
 
-(* (2) Body("message") on an error response: the server marshals the whole error value,
-   the client expects the attribute alone and fails to decode. *)
-Theorem roundtrip_refuted_body_attribute :
-  exists te tbl e c, as_service e = Some c /\
-    exists evs, encode_error te tbl e = Some evs /\
-      decode_error te tbl (run_writer (fun s => s) evs) = CClientErr.
-Proof.
-  exists [], [mkdecl "msg_only" 400 KDefault
-                [mkh "name" "Goa-Attribute-Name" true; mkh "id" "Goa-Attribute-Id" true;
-                 mkh "temporary" "Goa-Attribute-Temporary" true; mkh "timeout" "Goa-Attribute-Timeout" true;
-                 mkh "fault" "Goa-Attribute-Fault" true] (BAttr "message")],
-         (EService (mkcore "msg_only" "i1" "text" false false false)).
-  eexists. split; [reflexivity|]. eexists. split; [reflexivity|]. vm_compute. reflexivity.
-Qed.
-Print Assumptions roundtrip_refuted_body_attribute.
-
-(* (3) a header-carried string with edge white space (or a line break) is rewritten by
+(* (2) a header-carried string with edge white space (or a line break) is rewritten by
    net/http: the client gets another value *)
 Theorem roundtrip_refuted_header_rewritten :
   exists te tbl e fs,
@@ -91,7 +75,7 @@ Proof.
 Qed.
 Print Assumptions roundtrip_refuted_header_rewritten.
 
-(* (4) an empty string in a header is indistinguishable from an absent header: an
+(* (3) an empty string in a header is indistinguishable from an absent header: an
    optional attribute arrives unset (a required one fails the client's validation) *)
 Theorem roundtrip_refuted_header_empty :
   exists te tbl e fs,
@@ -323,6 +307,19 @@ Example joined_declared_is_dispatched :
   encode_error ex_te ex_tbl t = encode_error ex_te ex_tbl (EJoin "\n" [EPlain "u"; g]) /\
   exists evs, encode_error ex_te ex_tbl t = Some evs /\ ws_status (run_writer go_hdr_wire evs) = 404.
 Proof. split; [reflexivity|]. eexists. split; [reflexivity|vm_compute; reflexivity]. Qed.
+
+(* Body("message"): the message is the body, the other attributes travel in
+   goa-attribute-* headers, the client rebuilds the same error *)
+Example roundtrip_body_attribute :
+  let tbl := [mkdecl "msg_only" 400 KDefault
+                [mkh "name" "Goa-Attribute-Name" true; mkh "id" "Goa-Attribute-Id" true;
+                 mkh "temporary" "Goa-Attribute-Temporary" true; mkh "timeout" "Goa-Attribute-Timeout" true;
+                 mkh "fault" "Goa-Attribute-Fault" true] (BAttr "message")] in
+  let c := mkcore "msg_only" "i1" "some ""text""" false true false in
+  exists evs, encode_error [] tbl (EService c) = Some evs /\
+    ws_body (run_writer go_hdr_wire evs) = WVal "some ""text""" /\
+    decode_error [] tbl (run_writer go_hdr_wire evs) = CService c.
+Proof. eexists. split; [reflexivity|]. split; vm_compute; reflexivity. Qed.
 
 Example roundtrip_custom_with_header :
   let e := ECustom "Conflict" [("name", "n"); ("code", "7"); ("detail", "d e")] in
